@@ -676,3 +676,20 @@ def run(repo, rep, tier):  # noqa: F811 -- round-6 remedies (core/round6.py)
 _ADDR6C = ' R06.15: numeric schema keywords are set under `is not None`, never by truthiness. R06.16: get_config(look_in_parents=False) is used by get_discriminator only.'
 EXPLANATION += _ADDR6C
 LEVEL_TEXT += _ADDR6C
+
+
+_run_before_r7tp = run
+
+
+def run(repo, rep, tier):  # noqa: F811 -- round 7: type-level helper contracts borrowed from C02
+    _run_before_r7tp(repo, rep, tier)
+    if getattr(rep, "borrowed", False):
+        return
+    from ..core import typepreds as _tp7
+    _tp7.model_agreement(repo, rep, "R02.8", tier)
+    _tp7.reference_cases(repo, rep, "R02.9")
+
+
+_ADDR7TP = " Borrowed: R02.8 / R02.9 (the type predicates and type-level helpers, interpreted from their own source over the catalogue types and a reference table, answer as the dispatch model and the documentation say)."
+EXPLANATION += _ADDR7TP
+LEVEL_TEXT += _ADDR7TP
